@@ -6,7 +6,8 @@ from common import BASE_ASSUMPTIONS  # noqa: E402
 
 RULE = ("HalfLife.tla: the doubling / bisection search over every above-1/2 pattern of every length within the bound - "
         "NoUnderflow, BracketInv, InRange, ResultLaw and the liveness property Terminates (weak fairness, no state "
-        "constraint); Composite.tla decides the pattern of a concrete integer series exactly in integers, so the machine is "
+        "constraint); HalfLifeProof.tla proves NoUnderflow, BracketInv, InRange and the strictly shrinking bracket for EVERY "
+        "length and pattern with the TLA+ proof system (86 obligations; the swapped bracket of the pinned tree fails it); Composite.tla decides the pattern of a concrete integer series exactly in integers, so the machine is "
         "also started from every series over the alphabet - and from a ramp of length 10..13 under every null mask - and its "
         "result replayed into half_life under a watchdog; "
         "winsorize (3 methods) as clipping to exact rational / surd bounds and Spearman as Pearson of average ranks are "
@@ -16,6 +17,9 @@ RULE = ("HalfLife.tla: the doubling / bisection search over every above-1/2 patt
 def run(ctx):
     q = ctx.quick
     ctx.tlc("half-life-patterns", "HalfLife", "HalfLife.cfg" if q else "HalfLife_thorough.cfg", workers=8, timeout=3000, emit=False)
+    # the same three actions for EVERY length and EVERY above-1/2 pattern (TLA+ proof system): the safety invariants and
+    # the variant that makes the search terminate (the bracket shrinks strictly, the doubled lag is bounded)
+    ctx.tlaps("half-life-proof", "HalfLifeProof")
     r = ctx.tlc("composite", "MCComposite", "MCComposite_quick.cfg" if q else "MCComposite_thorough.cfg", workers=12,
                 timeout=6000)
     # a persistent ramp of length 10..11 (thorough ..13) under EVERY null mask: interior gaps make lags beyond the
